@@ -133,6 +133,17 @@ def run_kernel(spec, ctx):
         N = int(rng.choice(SHAPE_SET)) if rng.random() < 0.75 else int(rng.integers(0, 90))
         M = int(rng.choice(SHAPE_SET)) if rng.random() < 0.75 else int(rng.integers(0, 90))
         X = int(rng.choice(X_SET))
+        if rng.random() < 0.12:
+            # beyond plausible block / unroll / threshold sizes: one long argument (the other one stays short)
+            big = int(rng.choice([257, 300, 513, 1025, 4099, int(rng.integers(257, 5000))]))
+            if rng.random() < 0.5:
+                N, M = big, int(rng.integers(1, 40))
+            else:
+                N, M = int(rng.integers(1, 40)), big
+            X = int(rng.choice([1, 2, 3]))
+            if three and rng.random() < 0.4:
+                X, N, M = int(rng.choice([9, 33, 130, 300])), int(rng.integers(1, 12)), int(rng.integers(1, 60))   # many conformers
+            ctx.count("kernel.large-argument-cases")
         regime = REGIMES[int(rng.integers(len(REGIMES)))]
         da, db = (str(rng.choice(DTYPES)) for _ in range(2))
         if rng.random() < 0.45:
